@@ -11,6 +11,7 @@ import (
 	"github.com/oneconcern/datamon/pkg/dlogger"
 	"github.com/oneconcern/datamon/pkg/metrics"
 	"github.com/oneconcern/datamon/pkg/storage"
+	"github.com/oneconcern/datamon/pkg/verifhook"
 	"go.uber.org/zap"
 )
 
@@ -97,6 +98,7 @@ func (w *fsWriter) Write(p []byte) (n int, err error) {
 		c := copy(w.buf[w.offset:], p[written:writable])
 		w.offset += c
 		written += c
+		verifhook.Emit("cafs.write.iter", c, w.offset, len(w.buf), written, len(p))
 		if w.offset == len(w.buf) { // sizes line up, flush and continue
 			w.count++ // next leaf
 			w.maxGoRoutines <- struct{}{}
